@@ -1477,4 +1477,401 @@ theorem dec_validate_sq (sf : SF K) (hk : sf.kind = .squaredError) (he : sf.elem
 
 end SqErr
 
+
+/-! ### recalibrating twice; `mcb = 0` -/
+section Idem
+variable {K : Type} [Field K] [LinearOrder K] [IsStrictOrderedRing K] [ScoreOps K] [Inhabited K]
+
+omit [ScoreOps K] in
+/-- the prediction function of a fitted increasing model is non-decreasing -/
+theorem dec_interp_monotone {f : Functional} {lv : K} {X y : List K} {w : Option (List K)}
+    {tx ty : List K} (h : isoFit (some f) lv true X y w = .ok (tx, ty)) :
+    Monotone (interp tx ty) := by
+  obtain ⟨yiso, r, hr⟩ := fit_isoFit_exists h
+  intro a b hab
+  have := (fit_isoFit_fitted h hr).predict_mono a b hab
+  simpa using this
+
+omit [ScoreOps K] in
+/-- **Recalibrating recalibrated forecasts does not change the total score**: let `x' = recal(X₀)`
+and `x'' = recal(x')` (same responses, weights, functional).  Then `x''` and `x'` have the same
+total score, for every score that the isotonic fit minimises. -/
+theorem dec_recal_idem_total {f : Functional} {lv : K} {S : K → K → K} {dom : K → Prop}
+    {X₀ y : List K} {w : Option (List K)} {tx₀ ty₀ tx ty : List K}
+    (h₀ : isoFit (some f) lv true X₀ y w = .ok (tx₀, ty₀))
+    (h : isoFit (some f) lv true (X₀.map (interp tx₀ ty₀)) y w = .ok (tx, ty))
+    (hopt : dec_FitOpt f lv S dom y) (hup : ∀ v, (∃ a ∈ y, a ≤ v) → dom v) :
+    total (dec_wS S) (y.zip (dec_wts y w)) ((X₀.map (interp tx₀ ty₀)).map (interp tx ty))
+      = total (dec_wS S) (y.zip (dec_wts y w)) (X₀.map (interp tx₀ ty₀)) := by
+  apply le_antisymm
+  · exact dec_recal_le_forecast h hopt (fun z hz => hup z (dec_recal_range h₀ z hz).1)
+  · have := dec_recal_le h₀ hopt (fun q => interp tx ty (interp tx₀ ty₀ q))
+      ((dec_interp_monotone h).comp (dec_interp_monotone h₀))
+      (by
+        intro q hq
+        apply hup
+        refine (dec_recal_range h _ ?_).1
+        exact List.mem_map.mpr ⟨_, List.mem_map.mpr ⟨q, hq, rfl⟩, rfl⟩)
+    rw [List.map_map]
+    exact this
+
+/-- **`mcb = 0` for recalibrated forecasts** (generic form): in the setting of `dec_row_signs`, if
+the forecast column is itself the recalibration `recal(X₀)` of some forecast `X₀` (same data,
+weights, functional), its miscalibration is `0`. -/
+theorem dec_row_mcb_zero (sf : SF K) (f : Functional) (lv : K) (S : K → K → K) (dom : K → Prop)
+    (ys : List K) (w : Option (List K))
+    (hS : ∀ y ∈ ys, ∀ z, dom z → sfPair sf y z = .ok (S y z))
+    (hopt : dec_FitOpt f lv S dom ys) (hup : ∀ v, (∃ a ∈ ys, a ≤ v) → dom v)
+    (hallowed : dec_yminAllowed sf ys w = true) (sm : K)
+    (X₀ tx₀ ty₀ : List K) (h₀ : isoFit (some f) lv true X₀ ys w = .ok (tx₀, ty₀))
+    (row : DecompRow K)
+    (hrow : dec_row sf f lv ys w sm (X₀.map (interp tx₀ ty₀)) = .ok row) : row.mcb = 0 := by
+  obtain ⟨recal, score, scoreRecal, hrec, hsc, hsr, rfl⟩ :=
+    (dec_row_ok sf f lv ys w sm _ row).mp hrow
+  obtain ⟨tx, ty, hfit, rfl⟩ := dec_recal_ok_allowed hallowed hrec
+  obtain ⟨hX, hw, hne, hpos⟩ := dec_isoFit_ok_data hfit
+  have hxd : ∀ z ∈ X₀.map (interp tx₀ ty₀), dom z := fun z hz => hup z (dec_recal_range h₀ z hz).1
+  have hrd : ∀ z ∈ (X₀.map (interp tx₀ ty₀)).map (interp tx ty), dom z :=
+    fun z hz => hup z (dec_recal_range hfit z hz).1
+  have pair : ∀ zs : List K, (∀ z ∈ zs, dom z) →
+      ∀ p ∈ ys.zip zs, sfPair sf p.1 p.2 = .ok (S p.1 p.2) := by
+    intro zs hzs p hp
+    have := List.of_mem_zip (a := p.1) (b := p.2) hp
+    exact hS p.1 this.1 p.2 (hzs _ this.2)
+  have e1 := dec_sfMean_ok sf S ys _ w hX (pair _ hxd) hw hne hpos
+  have e2 := dec_sfMean_ok sf S ys _ w (by simpa using hX) (pair _ hrd) hw hne hpos
+  rw [hsc] at e1
+  rw [hsr] at e2
+  show score - scoreRecal = 0
+  rw [Except.ok.inj e1, Except.ok.inj e2, dec_recal_idem_total h₀ hfit hopt hup, sub_self]
+
+end Idem
+
+/-! ### constant forecasts; `dsc = 0` -/
+
+section OneBlock
+variable {L : Type} [LinearOrder L] {ok : Obs L → Prop} {T : List (Obs L) → L}
+
+/-- **Non-increasing responses are pooled into a single block** by the generalised PAVA -/
+theorem dec_gpava_one_block (hT : Internal ok T) (ys : List (Obs L)) (hys : ∀ o ∈ ys, ok o)
+    (hne : ys ≠ [])
+    (hrun : ∀ k u v, ys[k]? = some u → ys[k + 1]? = some v → v.1 ≤ u.1) :
+    gpava T ys = [⟨ys, T ys⟩] := by
+  obtain ⟨hg, _, hflat⟩ := gpava_spec hT ys hys
+  have hn : 0 < ys.length := List.length_pos_iff.mpr hne
+  have hb := gpava_run_one_block hT ys hys 0 (ys.length - 1) (by omega)
+    (fun k _ _ u v hu hv => hrun k u v hu hv)
+  cases hbs : gpava T ys with
+  | nil => rw [hbs] at hflat; exact absurd hflat.symm hne
+  | cons b rest =>
+    rw [hbs] at hg hflat hb
+    cases rest with
+    | nil =>
+      simp only [List.flatMap_cons, List.flatMap_nil, List.append_nil] at hflat
+      have hv := (hg b (by simp)).val
+      rw [hflat] at hv
+      cases b
+      simp only at hflat hv
+      rw [hflat, hv]
+    | cons b2 rest' =>
+      exfalso
+      have hlen := congrArg List.length hflat
+      simp only [List.flatMap_cons, List.length_append] at hlen
+      have h1 : 0 < b.data.length := List.length_pos_iff.mpr (hg b (by simp)).ne
+      have h2 : 0 < b2.data.length := List.length_pos_iff.mpr (hg b2 (by simp)).ne
+      have hmem : b.data.length ∈ bounds (b :: b2 :: rest') := by
+        rw [bounds_cons, bounds_cons]
+        simp
+      rcases hb _ hmem with h | h <;> omega
+
+end OneBlock
+
+section Const
+variable {K : Type} [Field K] [LinearOrder K] [IsStrictOrderedRing K] [Inhabited K]
+
+/-- the functional of `functional`/`level` on a list of observations: weighted mean, weighted
+expectile, mid-quantile (unweighted) -/
+def dec_T (f : Functional) (α : K) (d : List (Obs K)) : K :=
+  match f with
+  | .mean => wmean d
+  | .expectile => expectile α d
+  | _ => half * (qLower α d + qUpper α d)
+
+omit [Inhabited K] in
+/-- on non-increasing responses the fit of every functional is the constant `dec_T` -/
+theorem dec_eqFit_const {f : Functional} {α : K} (hf : FitOK f α) (obs : List (Obs K))
+    (hne : obs ≠ []) (hpos : ∀ o ∈ obs, 0 < o.2)
+    (hrun : ∀ k u v, obs[k]? = some u → obs[k + 1]? = some v → v.1 ≤ u.1) :
+    (eqFit f α obs).1 = List.replicate obs.length (dec_T f α obs) := by
+  cases f
+  · rw [eqFit_mean _ _ hpos, dec_gpava_one_block wmean_internal obs hpos hne hrun]
+    simp [expand, dec_T]
+  · exact absurd rfl hf.notMedian
+  · obtain ⟨h0, h1⟩ := hf.lvl (Or.inl rfl)
+    show expand (gpava (expectile α) obs) = _
+    have hg := dec_gpava_one_block (expectileFun α h0 h1).internal obs hpos hne hrun
+    have hT : (expectileFun α h0 h1).T = expectile α := rfl
+    rw [hT] at hg
+    rw [hg]
+    simp [expand, dec_T]
+  · obtain ⟨h0, h1⟩ := hf.lvl (Or.inr rfl)
+    show (quantileFit α obs).1 = _
+    have hg := dec_gpava_one_block (quantFun α h0 h1).internal obs (fun _ _ => trivial) hne hrun
+    have hT : (quantFun α h0 h1).T = qLower α := rfl
+    rw [hT] at hg
+    simp only [quantileFit, hg, expand, List.flatMap_cons, List.flatMap_nil, List.append_nil,
+      List.map_cons, List.map_nil, minAccRight, List.zipWith_cons_cons, List.zipWith_nil_right,
+      List.flatten_cons, List.flatten_nil, dec_T]
+    rw [List.zipWith_replicate]
+    simp
+
+omit [Inhabited K] in
+/-- validated triple for a functional that is not `median` -/
+theorem dec_eqValidate_eq {f : Functional} {α : K} {y : List K} {wopt : Option (List K)}
+    {v : Functional × K × List K} (hm : f ≠ .median)
+    (hv : eqValidate (some f) α y wopt = .ok v) : v = (f, α, dec_wts y wopt) := by
+  cases wopt with
+  | none =>
+    simp only [eqValidate] at hv
+    split_ifs at hv
+    cases hv
+    simp [eqEff, hm, dec_wts]
+  | some wl =>
+    simp only [eqValidate] at hv
+    split_ifs at hv
+    cases hv
+    rfl
+
+/-- **`isotonic_regression` of non-increasing responses (increasing fit) is constant**, equal to
+the functional of the whole sample -/
+theorem dec_isoReg_const {f : Functional} {α : K} {y : List K} {wopt : Option (List K)}
+    {x : List K} {r : List Nat} (hm : f ≠ .median)
+    (h : isoReg (some f) α true y wopt = .ok (x, r))
+    (hrun : ∀ k, k + 1 < y.length → y[k + 1]! ≤ y[k]!) :
+    x = List.replicate y.length (dec_T f α (y.zip (dec_wts y wopt))) := by
+  obtain ⟨v, hv, rfl, _⟩ := isoReg_inv h
+  obtain ⟨hne, hlen, hpos, hf, _⟩ := eqValidate_ok hv
+  have hv' := dec_eqValidate_eq hm hv
+  subst hv'
+  simp only [eqOut, orient_true]
+  simp only at hlen hpos hf
+  have hzl := zip_length_of_eq hlen
+  rw [dec_eqFit_const hf _ (by
+      intro he; rw [he] at hzl; exact hne (List.length_eq_zero_iff.mp hzl.symm))
+    (zip_snd_pos hpos) ?_, hzl]
+  intro k u v hu hv
+  have hk : k + 1 < y.length := by
+    rw [← hzl]
+    by_contra hcon
+    rw [List.getElem?_eq_none (by omega)] at hv
+    cases hv
+  have e1 := fit_obs_fst true y _ hlen k u hu
+  have e2 := fit_obs_fst true y _ hlen (k + 1) v hv
+  simp only [orient_true] at e1 e2
+  rw [← e1, ← e2]
+  exact hrun k hk
+
+/-- **the fitted model of constant forecasts is the constant functional of the sample** (in the
+sorted order of the rows) -/
+theorem dec_recal_const {f : Functional} {lv : K} {X y : List K} {w : Option (List K)}
+    {tx ty : List K} (hm : f ≠ .median) (h : isoFit (some f) lv true X y w = .ok (tx, ty))
+    (hc : ∀ a ∈ X, ∀ b ∈ X, a = b) :
+    X.map (interp tx ty) = X.map (fun _ => dec_T f lv
+      (((fit_sorted true X y w).map (·.y)).zip ((fit_sorted true X y w).map (·.w)))) := by
+  obtain ⟨hX, hw, _⟩ := fit_isoFit_inv h
+  obtain ⟨yiso, r, hr⟩ := fit_isoFit_exists h
+  have hxs : ∀ v ∈ (fit_sorted true X y w).map (·.x), v ∈ X := by
+    intro v hv
+    obtain ⟨a, ha, rfl⟩ := List.mem_map.mp hv
+    rw [← (dec_fit_rows_cols X y w hX hw).1]
+    exact List.mem_map.mpr ⟨a, List.mem_mergeSort.mp ha, rfl⟩
+  have hconst := dec_isoReg_const hm hr (by
+    intro k hk
+    rw [List.length_map] at hk
+    have := fit_tieRun_of_sorted true _ (fit_sorted_pairwise true (fit_rows X y w)) k (k + 1)
+      hk (hc _ (hxs _ (fit_get!_mem _ _ (by simp; omega))) _
+        (hxs _ (fit_get!_mem _ _ (by simpa using hk)))) k le_rfl (by omega)
+    simpa [fit_sorted] using this)
+  rw [dec_sorted_wts] at hconst
+  apply List.map_congr_left
+  intro q hq
+  obtain ⟨k, hk, rfl⟩ := List.getElem_of_mem hq
+  obtain ⟨p, hp, _, _, he⟩ := fit_isoFit_train_orig h hr k hk
+  rw [fit_get! X k hk] at he
+  rw [he, fit_get! yiso p hp]
+  simp only [hconst, List.getElem_replicate]
+
+/-! ### the functionals do not depend on the order of the observations -/
+
+omit [Inhabited K] in
+/-- an identifiable functional does not depend on the order of the (admissible) observations -/
+theorem dec_IdFun_T_perm (F : IdFun K) {d d' : List (Obs K)} (hp : d.Perm d') (hne : d ≠ [])
+    (hok : ∀ o ∈ d, F.ok o) : F.T d = F.T d' := by
+  have hne' : d' ≠ [] := by
+    intro he; rw [he] at hp; exact hne hp.eq_nil
+  have hok' : ∀ o ∈ d', F.ok o := fun o ho => hok o (hp.mem_iff.mpr ho)
+  have hE : ∀ u, Esum F.Vp d u = Esum F.Vp d' u := fun u => (hp.map _).sum_eq
+  apply le_antisymm
+  · rw [F.spec d hne hok, hE, ← F.spec d' hne' hok']
+  · rw [F.spec d' hne' hok', ← hE, ← F.spec d hne hok]
+
+omit [Inhabited K] in
+theorem dec_T_perm {f : Functional} {α : K} (hf : FitOK f α) {d d' : List (Obs K)}
+    (hp : d.Perm d') (hne : d ≠ []) (hpos : ∀ o ∈ d, 0 < o.2) : dec_T f α d = dec_T f α d' := by
+  cases f
+  · show wysum d / wsum d = wysum d' / wsum d'
+    unfold wysum wsum
+    rw [(hp.map _).sum_eq, (hp.map _).sum_eq]
+  · exact absurd rfl hf.notMedian
+  · obtain ⟨h0, h1⟩ := hf.lvl (Or.inl rfl)
+    exact dec_IdFun_T_perm (expectileFun α h0 h1) hp hne hpos
+  · obtain ⟨h0, h1⟩ := hf.lvl (Or.inr rfl)
+    show half * (qLower α d + qUpper α d) = half * (qLower α d' + qUpper α d')
+    have e1 : qLower α d = qLower α d' :=
+      dec_IdFun_T_perm (quantFun α h0 h1) hp hne (fun _ _ => trivial)
+    have e2 : qLower (1 - α) (negObs d) = qLower (1 - α) (negObs d') :=
+      dec_IdFun_T_perm (quantFun (1 - α) (by linarith) (by linarith)) (hp.map _)
+        (by simpa [negObs] using hne) (fun _ _ => trivial)
+    unfold qUpper
+    rw [e1, e2]
+
+omit [Inhabited K] in
+theorem dec_wysum_zip (ys ws : List K) : wysum (ys.zip ws) = (List.zipWith (· * ·) ys ws).sum := by
+  unfold wysum
+  induction ys generalizing ws with
+  | nil => simp
+  | cons y ys ih =>
+    cases ws with
+    | nil => simp
+    | cons v ws => simp only [List.zip_cons_cons, List.map_cons, List.sum_cons,
+        List.zipWith_cons_cons]; rw [ih ws]
+
+omit [Inhabited K] in
+theorem dec_wsum_zip (ys ws : List K) (h : ws.length = ys.length) : wsum (ys.zip ws) = ws.sum := by
+  unfold wsum
+  rw [List.map_snd_zip (by omega)]
+
+omit [Inhabited K] in
+theorem dec_obsOf_eq (ys : List K) (w : Option (List K)) : obsOf ys w = ys.zip (dec_wts ys w) := by
+  cases w with
+  | some w' => rfl
+  | none =>
+    simp only [obsOf, dec_wts]
+    induction ys with
+    | nil => rfl
+    | cons y ys ih => simp only [List.map_cons, List.zip_cons_cons, ih]
+
+end Const
+
+section Marg
+variable {K : Type} [Field K] [LinearOrder K] [IsStrictOrderedRing K] [ScoreOps K] [Inhabited K]
+
+omit [ScoreOps K] [Inhabited K] in
+/-- the marginal of `decompose` is `dec_T` of the observations (positive weights; for the quantile
+the weights are absent, as the fit requires) -/
+theorem dec_functionalVal_eq {f : Functional} {lv : K} {ys : List K} {w : Option (List K)}
+    {marg : K} (hq : f ≠ .mean → f ≠ .expectile → w = none)
+    (hw : ∀ w', w = some w' → w'.length = ys.length) (hne : ys ≠ [])
+    (hpos : ∀ v ∈ dec_wts ys w, 0 < v) (h : functionalVal f lv ys w = .ok marg) :
+    marg = dec_T f lv (ys.zip (dec_wts ys w)) := by
+  cases f with
+  | mean =>
+    have := dec_average_ok ys ys w rfl hw hne hpos
+    simp only [functionalVal] at h
+    rw [this] at h
+    rw [← Except.ok.inj h]
+    show _ = wysum _ / wsum _
+    rw [dec_wysum_zip, dec_wsum_zip _ _ (dec_wts_length ys w hw)]
+  | expectile =>
+    simp only [functionalVal] at h
+    rw [← Except.ok.inj h, dec_obsOf_eq]
+    rfl
+  | median =>
+    have := hq (by decide) (by decide)
+    subst this
+    simp only [functionalVal] at h
+    rw [← Except.ok.inj h, dec_obsOf_eq]
+    rfl
+  | quantile =>
+    have := hq (by decide) (by decide)
+    subst this
+    simp only [functionalVal] at h
+    rw [← Except.ok.inj h, dec_obsOf_eq]
+    rfl
+
+omit [ScoreOps K] in
+/-- what a successful `fit` says about functional, level and weights: the effective pair is
+admissible, and weights are only present for mean and expectile -/
+theorem dec_isoFit_fitOK {f : Functional} {lv : K} {X y : List K} {w : Option (List K)}
+    {tx ty : List K} (hm : f ≠ .median) (h : isoFit (some f) lv true X y w = .ok (tx, ty)) :
+    FitOK f lv ∧ (f ≠ .mean → f ≠ .expectile → w = none) := by
+  obtain ⟨yiso, r, hr⟩ := fit_isoFit_exists h
+  obtain ⟨v, hv, _, _⟩ := isoReg_inv hr
+  obtain ⟨_, _, _, hf, hwn⟩ := eqValidate_ok hv
+  have hv' := dec_eqValidate_eq hm hv
+  subst hv'
+  refine ⟨hf, ?_⟩
+  intro h1 h2
+  cases w with
+  | none => rfl
+  | some w' =>
+    rcases hwn (by simp) with h' | h'
+    · exact absurd h' h1
+    · exact absurd h' h2
+
+omit [ScoreOps K] in
+/-- the observations of the sorted sample are a permutation of the observations -/
+theorem dec_sorted_obs_perm (inc : Bool) (X y : List K) (w : Option (List K))
+    (hX : X.length = y.length) (hw : ∀ w', w = some w' → w'.length = y.length) :
+    (((fit_sorted inc X y w).map (·.y)).zip ((fit_sorted inc X y w).map (·.w))).Perm
+      (y.zip (dec_wts y w)) := by
+  obtain ⟨_, h2, h3⟩ := dec_fit_rows_cols X y w hX hw
+  have e : y.zip (dec_wts y w) = (fit_rows X y w).map (fun a => (a.y, a.w)) := by
+    rw [← List.zip_map', h2, h3]
+  rw [e, List.zip_map']
+  exact (List.mergeSort_perm _ _).map _
+
+omit [ScoreOps K] in
+/-- **Constant forecasts are recalibrated to the marginal**: if all forecasts of a column are equal,
+the fitted model evaluated at the forecasts is the constant marginal functional of `y` — the very
+number `decompose` uses for `uncertainty`. -/
+theorem dec_recal_const_marginal {f : Functional} {lv : K} {X y : List K} {w : Option (List K)}
+    {tx ty : List K} {marg : K} (hm : f ≠ .median)
+    (h : isoFit (some f) lv true X y w = .ok (tx, ty)) (hc : ∀ a ∈ X, ∀ b ∈ X, a = b)
+    (hmarg : functionalVal f lv y w = .ok marg) :
+    X.map (interp tx ty) = y.map (fun _ => marg) := by
+  obtain ⟨hX, hw, hne, hpos⟩ := dec_isoFit_ok_data h
+  obtain ⟨hf, hq⟩ := dec_isoFit_fitOK hm h
+  have hperm := dec_sorted_obs_perm true X y w hX hw
+  have hne' : ((fit_sorted true X y w).map (·.y)).zip ((fit_sorted true X y w).map (·.w)) ≠ [] := by
+    intro he
+    rw [he] at hperm
+    have := hperm.symm.eq_nil
+    have hl := congrArg List.length this
+    rw [zip_length_of_eq (dec_wts_length y w hw)] at hl
+    exact hne (List.length_eq_zero_iff.mp hl)
+  have hpos' : ∀ o ∈ ((fit_sorted true X y w).map (·.y)).zip ((fit_sorted true X y w).map (·.w)),
+      0 < o.2 := by
+    intro o ho
+    have := hperm.mem_iff.mp ho
+    exact hpos _ (List.of_mem_zip (a := o.1) (b := o.2) this).2
+  rw [dec_recal_const hm h hc, dec_T_perm hf hperm hne' hpos',
+    ← dec_functionalVal_eq hq hw hne hpos hmarg, List.map_const', List.map_const', hX]
+
+/-- **`dsc = 0` for constant forecasts** (any score object): when there is no domain repair, a
+column of equal forecasts gets discrimination exactly `0` -/
+theorem dec_row_dsc_zero (sf : SF K) (f : Functional) (lv : K) (hm : f ≠ .median) (ys : List K)
+    (w : Option (List K)) (hallowed : dec_yminAllowed sf ys w = true) (marg sm : K)
+    (hmarg : functionalVal f lv ys w = .ok marg)
+    (hsm : sfMean sf ys (ys.map fun _ => marg) w = .ok sm)
+    (x : List K) (hc : ∀ a ∈ x, ∀ b ∈ x, a = b) (row : DecompRow K)
+    (hrow : dec_row sf f lv ys w sm x = .ok row) : row.dsc = 0 := by
+  obtain ⟨recal, score, scoreRecal, hrec, _, hsr, rfl⟩ := (dec_row_ok sf f lv ys w sm x row).mp hrow
+  obtain ⟨tx, ty, hfit, rfl⟩ := dec_recal_ok_allowed hallowed hrec
+  rw [dec_recal_const_marginal hm hfit hc hmarg, hsm] at hsr
+  show sm - scoreRecal = 0
+  rw [Except.ok.inj hsr, sub_self]
+
+end Marg
+
 end MD
